@@ -500,6 +500,7 @@ namespace bxdecay0 {
       set_decay_version(BXDECAY0_LIB_VERSION);
     }
     _grab_bb_params_().reset();
+    _pimpl_->use_dbd_ga = false; // a previous (failed) initialization may have selected the gA generator
     if (_decay_category_ == DECAY_CATEGORY_DBD) {
 
       if ((_decay_dbd_mode_ == DBDMODE_2NUBB_GA_G0)
